@@ -162,7 +162,7 @@ Proof.
   - closed_e3 K E1c E3c H.
   - closed_e3 K E1c E3c H.
   - closed_e3 K E1c E3c H.
-  - destruct (nth_error (c_timers C) t) as [[i h|i|p a]|]; [| | |injection H as <- _; auto].
+  - destruct (nth_error (c_timers C) t) as [[i h|i|p a|p]|]; [| | | |injection H as <- _; auto].
     + unfold creq_at in H. destruct (nth_error (c_bcs C) i) as [b|] eqn:Eb; [|injection H as <- _; auto].
       destruct (nth_error (b_reqs b) h) as [[ow [t'|] to]|] eqn:Eq; try (injection H as <- _; auto).
       exfalso. destruct (TInvC_bc _ _ _ _ T Eb) as (I & L & A & _). destruct (A h _ t' Eq eq_refl) as [_ [X|[]]].
@@ -174,6 +174,7 @@ Proof.
         apply (same_core_down C); [apply upd_bc_core; intros; reflexivity | exact D]. }
       destruct (keep_e3 C (upd_bc C i (set_btimer None)) (sts_upd_keep C i (set_btimer None) (fun b0 => eq_refl)) eq_refl eq_refl E1c E3c) as [E1' E3'].
       match type of H with ev_bc ?C0 ?i0 ?e0 = _ => exact (ev_bc_closed_E3 C0 i0 e0 C' o K1 eq_refl ltac:(discriminate) E1' E3' H) end.
+    + rewrite (phase_done C p Dn) in H. injection H as <- _. auto.
     + rewrite (phase_done C p Dn) in H. injection H as <- _. auto.
   - destruct (nth_error (c_boots C) a) as [[[p rid] [| |]]|]; try (injection H as <- _; auto).
     rewrite (phase_done C p Dn) in H. injection H as <- _. auto.
@@ -202,11 +203,13 @@ Proof.
   set (X := match nth_error (c_ops C) p with
             | Some (mkOp _ _ _ (PBootConn a rest)) => let (C', o') := boot_next (set_boot C a KDead) p rest in (C', OBootCancel a :: o')
             | Some (mkOp _ _ _ (PBootReq a t rest)) => let (C', o') := boot_next C p rest in (C', OCancelTimer t :: OBootLose a :: o')
+            | Some (mkOp _ _ _ (PWait t)) => let (C', o') := op_fail C p RCancelled in (C', OCancelTimer t :: o')
             | _ => (C, []) end).
   assert (dlframe C (fst X)) as F1.
   { unfold X. destruct (nth_error (c_ops C) p) as [[k al rid ph]|]; [|unfold dlframe; auto]. destruct ph; try (unfold dlframe; auto; fail).
     - pose proof (boot_next_dlframe (set_boot C a KDead) p rest) as Y. destruct (boot_next (set_boot C a KDead) p rest). exact Y.
-    - pose proof (boot_next_dlframe C p rest) as Y. destruct (boot_next C p rest). exact Y. }
+    - pose proof (boot_next_dlframe C p rest) as Y. destruct (boot_next C p rest). exact Y.
+    - unfold op_fail, dlframe. destruct (nth_error (c_ops C) p); cbn; auto. }
   destruct X as [C1 o1]. cbn [fst] in F1. pose proof (IH C1 (S p)) as F2. destruct (cancel_boots C1 n (S p)). cbn [fst] in *.
   unfold dlframe in *. destruct F1 as (A1 & A2 & A3), F2 as (B1 & B2 & B3). repeat split; congruence.
 Qed.
